@@ -3,6 +3,20 @@ use crate::run::{Backend, run_program};
 use crate::util::Args;
 
 pub fn main(args: &Args) {
+    if args.extra.contains_key("keylayout") {
+        use mimium_lang::runtime::vm::heap::{HeapObject, HeapStorage};
+        let mut h = HeapStorage::default();
+        let k1 = h.insert(HeapObject::new(1));
+        let k2 = h.insert(HeapObject::new(1));
+        let r1: u64 = unsafe { std::mem::transmute_copy(&k1) };
+        let r2: u64 = unsafe { std::mem::transmute_copy(&k2) };
+        println!("k1 transmuted = {r1:#x}, k2 = {r2:#x}");
+        h.remove(k1);
+        let k3 = h.insert(HeapObject::new(1));
+        let r3: u64 = unsafe { std::mem::transmute_copy(&k3) };
+        println!("k3 (reuses slot of k1) = {r3:#x}");
+        return;
+    }
     let file = args.extra.get("file").expect("--file");
     let n: usize = args.extra.get("n").map(|s| s.parse().unwrap()).unwrap_or(8);
     let sched = args.extra.get("sched").map(|s| s == "1").unwrap_or(false);
